@@ -371,3 +371,51 @@ func c16M4(c *Ctx) {
 		}
 	}
 }
+
+func init() {
+	old := registry["C16"].Run
+	registry["C16"].Run = func(c *Ctx) { old(c); c16EntryLoop(c) }
+}
+
+// M1 (entry loop): in a compact append the decoder's index context advances once per decoded entry on every path through
+// the entry loop (also for an entry that takes a special path, e.g. an oversized one): every arrival at the loop's
+// post statement has passed `dec.index++`, and so has the unmarshal of the entry.
+func c16EntryLoop(c *Ctx) {
+	r := c.R
+	u := c.unit("C16-M1", "transport/rafthttp.(*msgAppV2Decoder).decode")
+	if u == nil {
+		return
+	}
+	adv := an.Store("transport/rafthttp.msgAppV2Decoder.index").Where("++", func(u *an.Unit, s *an.Site) bool { return s.Tok.String() == "++" })
+	if !r.Require("C16-M1", u, adv, "the decoder must follow the sender's index context") {
+		return
+	}
+	// the loop whose body contains the advance
+	advSites := u.Match(adv)
+	var loop *ast.ForStmt
+	ast.Inspect(u.Body, func(n ast.Node) bool {
+		if f, ok := n.(*ast.ForStmt); ok && f.Body.Pos() <= advSites[0].Pos && advSites[0].Pos < f.Body.End() {
+			loop = f
+		}
+		return true
+	})
+	if loop == nil || loop.Post == nil {
+		r.Unknown("C16-M1", u.Name+": the entry loop", "", "the index advance is not inside a for loop with a post statement")
+		return
+	}
+	var post []*flow.Site
+	for _, s := range u.Sites {
+		if s.Kind == flow.SStore && s.Pos >= loop.Post.Pos() && s.Pos < loop.Post.End() {
+			post = append(post, s)
+		}
+	}
+	if len(post) == 0 {
+		r.Unknown("C16-M1", u.Name+": the entry loop's post statement", "", "no site")
+		return
+	}
+	r.OrderSites("C16-M1", u, post, func(*flow.Site) string { return "the next iteration of the entry loop" }, []an.M{adv}, an.OrderOpts{})
+	um := an.AnyCall().Where("unmarshal of the entry", func(u *an.Unit, s *an.Site) bool {
+		return strings.HasSuffix(an.CalleeName(s), "pbutil.MaybeUnmarshal") && s.Pos >= loop.Body.Pos() && s.Pos < loop.Body.End()
+	})
+	r.Order("C16-M1", u, um, []an.M{adv}, an.OrderOpts{Min: 1})
+}
